@@ -660,11 +660,12 @@ func c08CallSites(c *Ctx) {
 			for _, call := range calls {
 				g := fi.GuardsOf(call)
 				isGlobal := staticCallee(call).Signature.Params().Len() == 0
-				if isGlobal && !labelHas(g, `EQ(param:opts.TrustPolicyName,const:"")`) {
+				tpn := paramWhere(fn, hasField("TrustPolicyName")) + ".TrustPolicyName"
+				if isGlobal && !labelHas(g, `EQ(`+tpn+`,const:"")`) {
 					ok = false
 				}
 				if !isGlobal {
-					if !labelHas(g, `NE(param:opts.TrustPolicyName,const:"")`) || desc(call.Call.Args[1]) != "param:opts.TrustPolicyName" {
+					if !labelHas(g, `NE(`+tpn+`,const:"")`) || desc(call.Call.Args[1]) != tpn {
 						ok = false
 					}
 				}
